@@ -32,9 +32,11 @@ LEVEL_NOTE = ('Trusts numpy arithmetic and the constant-property coolant. '
               'coefficient of REH/CDD is taken as published by dassh.')
 DESIGN_REF = 'DESIGN.md section 3, C12'
 RULE = ('one-assembly problems; geometry classes: in-range wire-wrapped '
-        '37-pin, 7-pin ENG-range, bare-rod (wire_diameter 0), plus seeded '
-        'random bundles (2-11 rings, P/D 1.005-1.6, H/D 3-110, W/D up to '
-        '~2, wire or bare, 1-2 ducts); each case = (geometry, spacer-grid '
+        '37-pin, 7-pin ENG-range, bare 19-pin (wire_diameter 0), 61-pin far '
+        'beyond every range (P/D 1.5, H/D 70, W/D 1.6), double-duct 19-pin '
+        'with bypass, plus seeded random bundles (2-11 rings, P/D 1.005-1.6, '
+        'H/D 3-110 or 0, W/D 1.0-1.65 (more is refused by the reader for '
+        'CTD/UCTD), wire or bare, 1-2 ducts); each case = (geometry, spacer-grid '
         'mode none|REH|CDD|loss_coeff, mixing, friction) and runs all 5 '
         'flow-split correlations: 3 full builds (+2 march steps) per triple '
         'at a laminar, transition and turbulent Re, then the whole Re grid '
@@ -137,7 +139,7 @@ def _random_geom(rng, k, max_rings):
 def cases(tier, seed):
     rng = np.random.default_rng([seed, 12])
     geoms = _fixed_geoms()
-    n_rnd = 1 if tier == 'quick' else 26
+    n_rnd = 1 if tier == 'quick' else 16
     max_rings = 7 if tier == 'quick' else 11
     for k in range(n_rnd):
         geoms.append(_random_geom(rng, k, max_rings))
@@ -792,6 +794,20 @@ def run_case(case):
 
 
 # ----------------------------------------------------------------------
+
+
+def extra_coverage(results):
+    """The finite part of the quantifier: which of the 4x6x5 triples were
+    executed (every wire-wrapped geometry runs all 120)."""
+    triples = set()
+    for r in results:
+        for t in r.get('tags', {}):
+            if t.startswith('triple='):
+                triples.add(t[7:])
+    return {'triple_space': len(MIX) * len(FF) * len(FS),
+            'distinct_triples_executed': len(triples),
+            'triple_space_exhaustive': len(triples) == len(MIX) * len(FF)
+            * len(FS)}
 
 
 FINDINGS = {
